@@ -312,6 +312,9 @@ func (w *worker) run(job *Job, limit time.Duration) (*Result, error) {
 	if err := dec.Decode(&res); err != nil {
 		return nil, infra("bad result from worker: %v", err)
 	}
+	if res.Err != "" {
+		return nil, infra("the harness itself failed on job %d (%s, seed %d): %s", job.ID, job.Scen, job.Seed, res.Err)
+	}
 	return &res, nil
 }
 
